@@ -46,6 +46,7 @@ fn check(ctx: &Ctx, meta: &Option<Vec<(String, Meta)>>, comp: Comp, label: &str,
 	let mut m = simple_model(ver, &[(0, false), (1, false)], (variant / 4) % 2, 1, Pattern::Zero, ((variant / 8) % 3) as u8, false);
 	m.metadata = meta.clone();
 	let bytes = m.encode();
+	super::sibling_history(&m, &bytes);
 	if counting {
 		ctx.eval();
 		ctx.class(label);
